@@ -36,7 +36,7 @@ def o3(q, t_h, gx, gy, ts, k, h, nbh, tg, rb, mdot, cp):
     n = len(q)
     qb = [0.0] + [float(x) / nbh for x in q]
     tt = [0.0] + [float(x) for x in t_h]
-    T, D = [], []
+    T, D, A = [], [], []
     for i in range(1, n + 1):
         lags = np.array([tt[i] - tt[j - 1] for j in range(1, i + 1)], dtype=float)
         gv = np.interp(np.log(lags * 3600.0 / ts), gx, gy)
@@ -44,7 +44,8 @@ def o3(q, t_h, gx, gy, ts, k, h, nbh, tg, rb, mdot, cp):
         d = float(np.sum(dq * gv)) / (2.0 * math.pi * k * h)
         T.append(tg + d + qb[i] * rb / h - qb[i] / (2.0 * mdot * cp))
         D.append(d)
-    return T, D
+        A.append(float(np.sum(np.abs(dq * gv))) / (2.0 * math.pi * k * h) + abs(qb[i] * rb / h) + abs(qb[i] / (2.0 * mdot * cp)))
+    return T, D, A
 
 
 def o3_fast(q, t_h, gx, gy, ts, k, h, nbh, tg, rb, mdot, cp):
@@ -54,12 +55,14 @@ def o3_fast(q, t_h, gx, gy, ts, k, h, nbh, tg, rb, mdot, cp):
     dq = np.diff(np.concatenate(([0.0], q)))
     n = len(q)
     T = np.empty(n)
+    A = np.empty(n)
     c = 1.0 / (2.0 * math.pi * k * h)
     for i in range(1, n + 1):
         lags = t[i] - t[0:i]
         gv = np.interp(np.log(lags * 3600.0 / ts), gx, gy)
         T[i - 1] = tg + c * float(dq[0:i] @ gv) + q[i - 1] * rb / h - q[i - 1] / (2.0 * mdot * cp)
-    return T
+        A[i - 1] = c * float(np.abs(dq[0:i]) @ np.abs(gv)) + abs(q[i - 1] * rb / h) + abs(q[i - 1] / (2.0 * mdot * cp))
+    return T, A
 
 
 def _params(ghe):
@@ -116,7 +119,9 @@ def detailed_case(draw):
             "lam": draw(st.sampled_from([-2.5, 0.5, 3.0, 1e-3, 1e3])), "dT": draw(st.floats(-10.0, 10.0))}
 
 
-def _cmp(code, ref, what, tol_abs=1e-9, tol_rel=1e-12):
+def _cmp(code, ref, what, tol_abs=1e-9, tol_rel=1e-12, abs_terms=None):
+    """tolerance: 1e-9 K + 1e-12 relative + the float64 summation allowance 512 eps x sum of |terms| of that step
+    (a sum of n terms evaluated in a different order differs by at most ~n eps sum|terms|; measured << this)"""
     code = np.asarray(code, dtype=float)
     ref = np.asarray(ref, dtype=float)
     if code.shape != ref.shape:
@@ -125,6 +130,8 @@ def _cmp(code, ref, what, tol_abs=1e-9, tol_rel=1e-12):
         raise Violation(f"{what}: non-finite simulated temperature", sig={"kind": "nonfinite", "what": what})
     err = np.abs(code - ref)
     lim = tol_abs + tol_rel * np.abs(ref)
+    if abs_terms is not None:
+        lim = lim + 512 * 2.220446049250313e-16 * np.asarray(abs_terms, dtype=float)
     bad = np.nonzero(err > lim)[0]
     if bad.size:
         i = int(bad[0])
@@ -146,10 +153,10 @@ def check_detailed(case, rec):
     gy = case["g0"] + np.concatenate(([0.0], np.cumsum(case["g_incs"])))
     g = interp1d(gx, gy)
     hp, dtb = guarded(ghe._simulate_detailed, q.copy(), t.copy(), g, what="_simulate_detailed")
-    T, D = o3(q, t, gx, gy, **P)
+    T, D, A = o3(q, t, gx, gy, **P)
     scale = float(np.max(np.abs(np.asarray(T) - P["tg"]))) if len(T) else 0.0
-    _cmp(hp, T, "hp_eft", tol_abs=1e-9 + 1e-12 * scale)
-    _cmp(dtb, D, "dTb", tol_abs=1e-9 + 1e-12 * scale)
+    _cmp(hp, T, "hp_eft", tol_abs=1e-9 + 1e-12 * scale, abs_terms=A)
+    _cmp(dtb, D, "dTb", tol_abs=1e-9 + 1e-12 * scale, abs_terms=A)
     # metamorphic relations (independent of O3)
     z, _ = guarded(ghe._simulate_detailed, np.zeros_like(q), t.copy(), g, what="_simulate_detailed(zero)")
     if any(float(v) != P["tg"] for v in z):
@@ -220,9 +227,9 @@ def check_simulate(case, rec):
     P = _params(ghe)
     g, _ = ghe.grab_g_function(ghe.B_spacing / ghe.bhe.b.H)
     gx, gy = np.asarray(g.x, dtype=float), np.asarray(g.y, dtype=float)
-    ref = o3_fast(q, t, gx, gy, **P)
+    ref, absterms = o3_fast(q, t, gx, gy, **P)
     scale = float(np.max(np.abs(ref - P["tg"])))
-    worst = _cmp(ghe.hp_eft, ref, f"simulate({method})", tol_abs=1e-9 + 1e-12 * scale)
+    worst = _cmp(ghe.hp_eft, ref, f"simulate({method})", tol_abs=1e-9 + 1e-12 * scale, abs_terms=absterms)
     if float(mx) != float(max(ghe.hp_eft)) or float(mn) != float(min(ghe.hp_eft)):
         raise Violation("simulate() return value is not (max, min) of hp_eft", sig={"kind": "return_value"})
     if case.get("zero") and any(float(v) != P["tg"] for v in ghe.hp_eft):
